@@ -95,6 +95,16 @@ def run(ctx):
             got["distance(only_ub) python ndim"] = call(lambda: dtw_ndim.distance(s1, s2, only_ub=True, **kw))
             got["distance(only_ub) C ndim"] = call(lambda: dtw_ndim.distance_fast(s1, s2, only_ub=True, **kw))
             got["distance(use_c, only_ub) ndim"] = call(lambda: dtw_ndim.distance(s1, s2, only_ub=True, use_c=True, **kw))
+        # asking for the bound only returns the Euclidean distance whatever other options are given along with it
+        if isinstance(exp_ed, float) and exp_ed > 0:
+            mod_ = dtw if nd == 1 else dtw_ndim
+            okw = {k_: v_ for k_, v_ in kw.items() if k_ in ("window", "inner_dist", "penalty")}
+            for extra_ in ({"use_pruning": True}, {"max_dist": exp_ed / 2}, {"use_pruning": True, "max_dist": exp_ed / 2},
+                           {"use_pruning": True, "max_dist": exp_ed * 2}):
+                for uc_ in (False, True):
+                    got["distance(only_ub, %s, use_c=%s)" % (",".join("%s=%s" % kv_ for kv_ in sorted(extra_.items())), uc_)] = \
+                        call(lambda: mod_.distance(s1, s2, only_ub=True, use_c=uc_, **extra_, **okw))
+            res.hit("only_ub_with_other_options")
         if nd > 1:
             # multivariate Euclidean inner distance: sum over the points of the vector norms (floats; the harness'
             # own evaluation of the documented definition is the reference)
